@@ -398,7 +398,11 @@ impl Sender {
             .map(|settlement| {
                 DeliveryFut::new(settlement, self.inner.link.session_stop_reason.clone())
             })?;
-        fut.await
+        let detached_fut = self.inner.incoming.recv(); // cancel safe
+        self.inner
+            .link
+            .outcome_or_detached(&self.inner.outgoing, detached_fut, fut)
+            .await
     }
 
     /// Like [`send()`](#method.send) but takes a reference to the message
@@ -416,7 +420,11 @@ impl Sender {
             .map(|settlement| {
                 DeliveryFut::new(settlement, self.inner.link.session_stop_reason.clone())
             })?;
-        fut.await
+        let detached_fut = self.inner.incoming.recv(); // cancel safe
+        self.inner
+            .link
+            .outcome_or_detached(&self.inner.outgoing, detached_fut, fut)
+            .await
     }
 
     cfg_not_wasm32! {
